@@ -283,6 +283,19 @@ type HarnessBug struct{ Msg string }
 
 func (e *HarnessBug) Error() string { return "harness bug (inconclusive): " + e.Msg }
 
+// faultsAreViolations is set by SafeFault for the duration of f.
+var faultsAreViolations bool
+
+// SafeFault is Safe for code that deliberately touches memory handed out by pogreb (retained
+// result slices): a fault or panic there is a violation although no pogreb frame is on the stack.
+// Single-goroutine use only.
+func SafeFault(f func() error) error {
+	old := faultsAreViolations
+	faultsAreViolations = true
+	defer func() { faultsAreViolations = old }()
+	return Safe(f)
+}
+
 // Safe runs f and converts a panic into an error (with stack).
 func Safe(f func() error) (err error) {
 	defer func() {
@@ -290,12 +303,18 @@ func Safe(f func() error) (err error) {
 			if tn := fmt.Sprintf("%T", r); strings.HasPrefix(tn, "rapid.") || strings.HasPrefix(tn, "*rapid.") {
 				panic(r) // rapid's own control flow (invalid data, stop test): not ours to catch
 			}
+			stack := debug.Stack()
 			if msg := fmt.Sprint(r); strings.HasPrefix(msg, "harness bug") || strings.Contains(msg, "HARNESS-HEALTH") {
 				// an assertion of the harness about itself: never a verdict about pogreb
-				err = &HarnessBug{Msg: msg + "\n" + trimStack(debug.Stack())}
+				err = &HarnessBug{Msg: msg + "\n" + trimStack(stack)}
 				return
 			}
-			err = fmt.Errorf("panic: %v\n%s", r, trimStack(debug.Stack()))
+			if !faultsAreViolations && !strings.Contains(string(stack), "github.com/akrylysov/pogreb") {
+				// the panic did not pass through a single pogreb function: it is the harness's own
+				err = &HarnessBug{Msg: fmt.Sprintf("panic outside pogreb: %v\n%s", r, trimStack(stack))}
+				return
+			}
+			err = fmt.Errorf("panic: %v\n%s", r, trimStack(stack))
 		}
 	}()
 	return f()
